@@ -82,6 +82,23 @@ theorem c19_generated_schemas_well_formed :
 /-- The source decodes `StateV01` through the check of the declared predicate type. -/
 theorem c19_source_checks_declared_predicate_type : stateV01ChecksPredicateType = true := by decide
 
+/-- "Building a statement from link metadata carries the link's name, artifacts, command, byproducts
+    and environment over unchanged": in the source, every member of the statement `merge` builds is
+    initialised by a plain move of the corresponding link field (no call, no conversion in between);
+    the v0.1 statement takes the link's products as subject and declares the version of the predicate
+    it is given.  (Table read from `FromMerge::merge` on every run.) -/
+theorem c19_merge_moves_the_link_fields :
+    mergeTable =
+      [("StateNaive".toList,
+          [("_type".toList, "StatementVer::Naive".toList), ("name".toList, "meta.name".toList),
+           ("materials".toList, "meta.materials".toList), ("products".toList, "meta.products".toList),
+           ("env".toList, "meta.env".toList), ("command".toList, "meta.command".toList),
+           ("byproducts".toList, "meta.byproducts".toList)]),
+       ("StateV01".toList,
+          [("_type".toList, "StatementVer::V0_1".toList), ("subject".toList, "meta.products".toList),
+           ("predicateType".toList, "p.version()".toList), ("predicate".toList, "p.into_enum()".toList)])] := by
+  decide
+
 /- Non-vacuity: a SLSA v0.2 predicate with an optional member present, one absent and skipped, a
    nested struct and a digest map is well typed, and the kernel evaluates its round trip. -/
 def exPredicate : AVal :=
